@@ -72,18 +72,28 @@ func (p *recPersister) add(e pevent) {
 
 func (p *recPersister) Staged(ctx context.Context, s channel.Source) error {
 	st := s.StagingTX().State
+	if st == nil { // DiscardUpdate persists the empty staging transaction
+		p.add(pevent{Kind: "Staged", ID: s.ID()})
+		return nil
+	}
 	p.add(pevent{Kind: "Staged", ID: s.ID(), Ver: st.Version, State: st.Clone()})
 	return nil
 }
 
 func (p *recPersister) SigAdded(ctx context.Context, s channel.Source, i channel.Index) error {
 	st := s.StagingTX().State
+	if st == nil {
+		return nil
+	}
 	p.add(pevent{Kind: "SigAdded", ID: s.ID(), Idx: i, Ver: st.Version, State: st.Clone()})
 	return nil
 }
 
 func (p *recPersister) Enabled(ctx context.Context, s channel.Source) error {
 	st := s.CurrentTX().State
+	if st == nil {
+		return nil
+	}
 	p.add(pevent{Kind: "Enabled", ID: s.ID(), Ver: st.Version, State: st.Clone()})
 	return nil
 }
